@@ -17,3 +17,5 @@ def run(ctx):
     rule_F8(ctx)      # ... nor through shape-dependent arithmetic in the transform
     rule_G1(ctx)      # ... nor on what another sampler did earlier in the process
     rule_F9(ctx)      # ... nor on arrays changed behind the caller's back
+    from ..memo import rule_K2
+    rule_K2(ctx)      # ... nor on when an accessor happened to fill a cache
